@@ -9,12 +9,12 @@ DEMO=$(ls $OUT/demo*.rs | head -1)
 NAME=seed_demo_${P}_${K}
 cp $DEMO tests/$NAME.rs
 echo "== clean tree: demonstration must pass"
-cargo test --offline --test $NAME 2>&1 | grep -E "^test result|error(\[|:)" | head -5
+cargo test --offline --test $NAME 2>&1 | grep -E "^test result|^error(\[|:)" | tail -5
 rm tests/$NAME.rs
 git apply $OUT/patch.diff || { echo "PATCH DOES NOT APPLY"; exit 1; }
 echo "== with the change: existing suite (unedited) must pass"
 cargo test --offline --no-fail-fast 2>&1 | grep -E "^test result" | awk '{p+=$4; f+=$6} END {print p" passed "f" failed"}'
 cp $DEMO tests/$NAME.rs
 echo "== with the change: demonstration must fail"
-cargo test --offline --test $NAME 2>&1 | grep -E "^test result|error(\[|:)" | head -5
+cargo test --offline --test $NAME 2>&1 | grep -E "^test result|^error(\[|:)" | tail -5
 git checkout -q -- . ; git clean -fdq tests examples
